@@ -1,0 +1,87 @@
+// Copyright 2026 Dolthub, Inc.
+//
+// Licensed under the Apache License, Version 2.0 (the "License");
+// you may not use this file except in compliance with the License.
+// You may obtain a copy of the License at
+//
+//     http://www.apache.org/licenses/LICENSE-2.0
+//
+// Unless required by applicable law or agreed to in writing, software
+// distributed under the License is distributed on an "AS IS" BASIS,
+// WITHOUT WARRANTIES OR CONDITIONS OF ANY KIND, either express or implied.
+// See the License for the specific language governing permissions and
+// limitations under the License.
+
+//go:build verif
+
+package dsess
+
+// Machine-checked contracts for /verif (comment-only; see /verif/DESIGN.md §2.2).
+
+// ---- auto-increment values are never handed out twice (C28): lock discipline of the sequence tracker
+
+//@ ghost_global verif_ghost
+
+//@ extern (*github.com/dolthub/dolt/go/libraries/doltcore/sqle/dsess/mutexmap.MutexMap).Lock as verif_x_mm_Lock
+//@   modifies nothing
+//@   ensures release != nil
+//@   ghost_set verif_ghost.sLocked = true
+
+//@ extern funcvalue:release as verif_x_release
+//@   modifies nothing
+//@   ghost_set verif_ghost.sLocked = false
+
+//@ extern (github.com/dolthub/dolt/go/libraries/doltcore/doltdb.TableName).ToLower as verif_x_ToLower
+//@   modifies nothing
+//@   ghost_set verif_ghost.sLower = l
+
+// Next: in interleaved lock mode (no statement-level lock is held by the engine) every read and every write of the
+// table's sequence happens under the per-table mutex, whether the value is generated or given explicitly, so the
+// read-modify-write is atomic across sessions and branches; the sequence is addressed by the lower-cased name
+//@ func (*SequenceTracker).Next
+//@   property C28
+//@   requires !verif_ghost.sLocked
+//@   at call loadSequenceState: assert a.lockMode != LockMode_Interleaved || verif_ghost.sLocked
+//@   at call initializeSequenceState: assert a.lockMode != LockMode_Interleaved || verif_ghost.sLocked
+//@   at call Store: assert a.lockMode != LockMode_Interleaved || verif_ghost.sLocked
+//@   ensures  !verif_ghost.sLocked
+//@   also_modifies verif_ghost.sLocked, verif_ghost.sLower
+
+// Set (ALTER TABLE ... AUTO_INCREMENT, explicit moves): always under the per-table mutex, in every lock mode
+//@ func (*SequenceTracker).Set
+//@   property C28
+//@   requires !verif_ghost.sLocked
+//@   at call loadSequenceState: assert verif_ghost.sLocked
+//@   at call Store: assert verif_ghost.sLocked
+//@   at call deepSet: assert verif_ghost.sLocked
+//@   ensures  !verif_ghost.sLocked
+//@   also_modifies verif_ghost.sLocked, verif_ghost.sLower
+
+// AddNewRelation: the existing sequence (advanced by other branches) is looked up and merged under the mutex and
+// under the same lower-cased name that the rest of the tracker uses
+//@ func (*SequenceTracker).AddNewRelation
+//@   property C28
+//@   requires !verif_ghost.sLocked
+//@   at call Load: assert verif_ghost.sLocked && arg1:doltdb.TableName == verif_ghost.sLower
+//@   at call Store: assert verif_ghost.sLocked && arg1:doltdb.TableName == verif_ghost.sLower
+//@   ensures  !verif_ghost.sLocked
+//@   also_modifies verif_ghost.sLocked, verif_ghost.sLower
+
+// helpers called with the mutex held: they read and write the sequence map themselves (their callers hold the
+// lock), and leave the tracker's configuration alone (frame conditions assumed from their bodies)
+//@ func (*SequenceTracker).initializeSequenceState
+//@   property C28
+//@   trusted frame condition: reads the session / working set, calls deepSet, loads and stores the sequence; does not change the lock mode
+//@   modifies nothing
+//@ func (*SequenceTracker).validateBounds
+//@   property C28
+//@   trusted frame condition: reads the column type from the schema
+//@   modifies nothing
+//@ func (*SequenceTracker).deepSet
+//@   property C28
+//@   trusted frame condition: walks the branch heads (not modelled)
+//@   modifies nothing
+//@ func (*SequenceTracker).waitForInit
+//@   property C28
+//@   trusted frame condition: blocks on initialisation
+//@   modifies nothing
